@@ -1,1 +1,319 @@
-// placeholder
+// Kani harnesses mounted inside noodles-bgzf/src/io/reader/frame.rs (sees its private fns).
+#![allow(unused_imports, dead_code)]
+
+#[path = "/verif/harness/common.rs"]
+mod common;
+#[path = "/verif/harness/bgzf/deflate_model.rs"]
+mod deflate_model;
+
+use std::io::{self, Read};
+
+use self::common::*;
+use super::*;
+use crate::io::writer::{BGZF_EOF, write_frame};
+
+const FRAME_MAX: usize = 64;
+
+/// Independent BGZF member parser written from RFC 1952 + SAM spec 4.1 (no noodles code).
+/// Returns (total member size, cdata offset, cdata len, crc32, isize).
+fn spec_parse(b: &[u8]) -> Option<(usize, usize, usize, u32, u32)> {
+    if b.len() < 18 {
+        return None;
+    }
+    let fixed = b[0] == 31 && b[1] == 139 && b[2] == 8 && b[3] == 4 // ID1 ID2 CM FLG.FEXTRA
+        && b[10] == 6 && b[11] == 0 // XLEN = 6
+        && b[12] == 66 && b[13] == 67 // SI1 SI2 = 'B','C'
+        && b[14] == 2 && b[15] == 0; // SLEN = 2
+    if !fixed {
+        return None;
+    }
+    let bsize = (b[16] as usize) | ((b[17] as usize) << 8);
+    let total = bsize + 1;
+    if total < 26 || total > b.len() {
+        return None;
+    }
+    let clen = bsize - 6 - 19; // spec: CDATA is BSIZE - XLEN - 19 bytes
+    let t = 18 + clen;
+    let crc = u32::from_le_bytes([b[t], b[t + 1], b[t + 2], b[t + 3]]);
+    let isize = u32::from_le_bytes([b[t + 4], b[t + 5], b[t + 6], b[t + 7]]);
+    Some((total, 18, clen, crc, isize))
+}
+
+fn frame_roundtrip<const N: usize>() {
+    let cdata: [u8; N] = kani::any();
+    let crc: u32 = kani::any();
+    let usize_: usize = kani::any();
+    let mut out = [0u8; FRAME_MAX];
+    let mut sink: &mut [u8] = &mut out[..];
+    let r = kind_of(write_frame(&mut sink, &cdata, crc, usize_));
+    let written = FRAME_MAX - sink.len();
+    if usize_ > u32::MAX as usize {
+        assert!(r == Err(io::ErrorKind::InvalidInput));
+        return;
+    }
+    let total = r.unwrap();
+    assert_eq!(total, 26 + N);
+    assert_eq!(written, total);
+    // O1.1 byte-exact against the spec parser
+    let (t2, off, clen, crc2, isize2) = spec_parse(&out[..written]).unwrap();
+    assert!(t2 == total && clen == N && crc2 == crc && isize2 as usize == usize_);
+    assert!(out[4] == 0 && out[5] == 0 && out[6] == 0 && out[7] == 0); // MTIME 0
+    let i: usize = kani::any(); // universally quantified index instead of a loop
+    kani::assume(i < N);
+    assert_eq!(out[off + i], cdata[i]);
+    // O1.2 real reader-side parser is the inverse
+    let p = parse_frame(&out[..written]);
+    if usize_ <= 65536 {
+        let (bs, cd, c, isz) = p.unwrap();
+        assert!(bs == total as u64 && c == crc && isz == usize_ && cd.len() == N);
+        assert_eq!(cd[i], cdata[i]);
+        kani::cover!(usize_ == 65536);
+    } else {
+        assert!(p.is_err());
+        std::mem::forget(p);
+        kani::cover!(true);
+    }
+}
+
+macro_rules! frame_roundtrip_harness {
+    ($name:ident, $n:expr) => {
+        #[kani::proof]
+        #[kani::unwind(3)]
+        fn $name() {
+            frame_roundtrip::<$n>();
+        }
+    };
+}
+
+// @verif prop=C01 id=O1.1+O1.2/1 tier=quick harness=c01_frame_write_parse_inverse_1 unwind=3 bound="cdata length 1, symbolic bytes/crc/isize (all usize)" fns="write_frame,write_header,write_trailer,parse_frame,split_frame,parse_header,parse_trailer"
+frame_roundtrip_harness!(c01_frame_write_parse_inverse_1, 1);
+// @verif prop=C01 id=O1.1+O1.2/2 tier=quick harness=c01_frame_write_parse_inverse_2 unwind=3 bound="cdata length 2, symbolic bytes/crc/isize" fns="write_frame,parse_frame"
+frame_roundtrip_harness!(c01_frame_write_parse_inverse_2, 2);
+// @verif prop=C01 id=O1.1+O1.2/7 tier=quick harness=c01_frame_write_parse_inverse_7 unwind=3 bound="cdata length 7, symbolic bytes/crc/isize" fns="write_frame,parse_frame"
+frame_roundtrip_harness!(c01_frame_write_parse_inverse_7, 7);
+// @verif prop=C01 id=O1.1+O1.2/30 tier=thorough harness=c01_frame_write_parse_inverse_30 unwind=3 bound="cdata length 30, symbolic bytes/crc/isize" fns="write_frame,parse_frame"
+frame_roundtrip_harness!(c01_frame_write_parse_inverse_30, 30);
+
+// @verif prop=C01 id=O1.2c tier=quick unwind=3 bound="the constant BGZF_EOF; no symbolic input" fns="parse_frame,BGZF_EOF,write_frame"
+#[kani::proof]
+#[kani::unwind(3)]
+fn c01_eof_marker_is_a_valid_empty_frame() {
+    assert_eq!(BGZF_EOF.len(), 28);
+    let (bs, cd, crc, isz) = parse_frame(&BGZF_EOF).unwrap();
+    assert!(bs == 28 && crc == 0 && isz == 0 && cd.len() == 2 && cd[0] == 3 && cd[1] == 0);
+    let (t, _, clen, c2, i2) = spec_parse(&BGZF_EOF).unwrap();
+    assert!(t == 28 && clen == 2 && c2 == 0 && i2 == 0);
+    // it is what the writer emits for an empty deflate stream
+    let mut out = [0u8; 32];
+    let mut sink: &mut [u8] = &mut out[..];
+    write_frame(&mut sink, &[0x03, 0x00], 0, 0).unwrap();
+    let i: usize = kani::any();
+    kani::assume(i < 28);
+    assert_eq!(out[i], BGZF_EOF[i]);
+    assert_eq!(MIN_FRAME_SIZE, 26);
+}
+
+// @verif prop=C01 id=O1.3a tier=quick bound="all u64-pair trailers / all usize block sizes; no loops" fns="parse_trailer,MIN_FRAME_SIZE,MAX_BUF_SIZE,COMPRESSION_LEVEL_0_OVERHEAD,BGZF_HEADER_SIZE,TRAILER_SIZE"
+#[kani::proof]
+fn c01_budget_arithmetic_and_trailer_limits() {
+    use crate::io::writer::{COMPRESSION_LEVEL_0_OVERHEAD, MAX_BUF_SIZE};
+    // a full staging buffer stored at level 0 still fits one BGZF member (BSIZE is a u16)
+    assert!(MAX_BUF_SIZE + COMPRESSION_LEVEL_0_OVERHEAD + BGZF_HEADER_SIZE + gz::TRAILER_SIZE <= 65536);
+    // zlib's stored-block overhead for <= 65535 bytes is 5 bytes, which the budget must cover
+    assert!(COMPRESSION_LEVEL_0_OVERHEAD >= 5);
+    assert!(MAX_BUF_SIZE <= u16::MAX as usize); // Writer::virtual_position casts len to u16
+    assert!(MAX_BUF_SIZE <= BGZF_MAX_ISIZE);
+    assert_eq!(BGZF_HEADER_SIZE, 18);
+    assert_eq!(gz::TRAILER_SIZE, 8);
+    assert_eq!(BGZF_MAX_ISIZE, 65536);
+    let t: [u8; 8] = kani::any();
+    let isz = u32::from_le_bytes([t[4], t[5], t[6], t[7]]);
+    let r = parse_trailer(&t);
+    if isz as usize <= 65536 {
+        let (c, i) = r.unwrap();
+        assert!(c == u32::from_le_bytes([t[0], t[1], t[2], t[3]]) && i == isz as usize);
+    } else {
+        assert!(r.is_err());
+        std::mem::forget(r);
+    }
+}
+
+// ------------------------------------------------------------------------------------------------
+// C15: arbitrary bytes into the frame parser / block parser
+
+// @verif prop=C15 id=O15.bgzf.parse_frame tier=quick unwind=4 bound="arbitrary buffer of 0..=40 bytes (symbolic length and contents)" fns="parse_frame,split_frame,parse_header,parse_trailer"
+#[kani::proof]
+#[kani::unwind(4)]
+fn c15_parse_frame_arbitrary_bytes() {
+    let buf: [u8; 40] = kani::any();
+    let n: usize = kani::any();
+    kani::assume(n <= 40);
+    let r = parse_frame(&buf[..n]);
+    match &r {
+        Ok((bs, cd, _, isz)) => {
+            assert!(n >= 26 && *bs == n as u64 && cd.len() == n - 26 && *isz <= 65536);
+            assert!(spec_parse_fixed_ok(&buf));
+            kani::cover!(n == 40);
+        }
+        Err(_) => {
+            kani::cover!(n >= 26);
+        }
+    }
+    std::mem::forget(r);
+}
+
+fn spec_parse_fixed_ok(b: &[u8; 40]) -> bool {
+    b[0] == 31 && b[1] == 139 && b[2] == 8 && b[3] == 4 && b[10] == 6 && b[11] == 0
+        && b[12] == 66 && b[13] == 67 && b[14] == 2 && b[15] == 0
+}
+
+// @verif prop=C15 id=O15.bgzf.parse_block tier=quick unwind=70 timeout=600 stubs="deflate::decode->stored-block model,deflate::crc32->bitwise CRC-32" bound="arbitrary 26..=34-byte frame (cdata 0..=8 bytes, symbolic), ISIZE limited to <=8 by assumption (crc loop bound)" fns="parse_block,parse_frame,block_initialize,inflate,Data::as_mut,Data::resize"
+#[kani::proof]
+#[kani::unwind(70)]
+#[kani::stub(crate::deflate::decode, deflate_model::decode)]
+#[kani::stub(crate::deflate::crc32, deflate_model::crc32)]
+fn c15_parse_block_arbitrary_frame() {
+    let buf: [u8; 34] = kani::any();
+    let n: usize = kani::any();
+    kani::assume(n >= 26 && n <= 34);
+    // keep the CRC loop bounded: ISIZE <= 8 (larger ISIZE only lengthens the same loop)
+    let isz = u32::from_le_bytes([buf[n - 4], buf[n - 3], buf[n - 2], buf[n - 1]]);
+    kani::assume(isz <= 8);
+    let mut block = Block::default();
+    let r = parse_block(&buf[..n], &mut block);
+    if r.is_ok() {
+        assert_eq!(block.data().len(), isz as usize);
+        assert_eq!(block.size(), n as u64);
+        assert_eq!(block.data().position(), 0);
+        kani::cover!(isz == 3);
+    }
+    std::mem::forget(r);
+    std::mem::forget(block);
+}
+
+// ------------------------------------------------------------------------------------------------
+// C13 / C12: frame reader under truncation and under adversarial chunking
+//
+// Performance notes (DESIGN R3/R11): read_frame_into drops an io::Error internally, so the unwind
+// bound is kept minimal: the caller's Vec is pre-sized (calloc, no loop) and frames carry 0..2
+// bytes of cdata, so `Vec::resize` extends by at most 10 elements.
+
+fn two_frames<const A: usize, const B: usize>(out: &mut [u8; 64]) -> (usize, usize) {
+    let c1: [u8; A] = kani::any();
+    let c2: [u8; B] = kani::any();
+    let (crc1, crc2, i1, i2): (u32, u32, u16, u16) = kani::any();
+    let mut sink: &mut [u8] = &mut out[..];
+    let a = write_frame(&mut sink, &c1, crc1, i1 as usize).unwrap();
+    let b = write_frame(&mut sink, &c2, crc2, i2 as usize).unwrap();
+    (a, b)
+}
+
+/// what a correct reader may answer for a stream holding `avail` bytes of a `size`-byte frame
+fn expected_for_cut(avail: usize, size: usize) -> Result<Option<()>, io::ErrorKind> {
+    if avail >= size {
+        Ok(Some(()))
+    } else if avail == 0 {
+        Ok(None) // clean end at a frame boundary
+    } else {
+        Err(io::ErrorKind::UnexpectedEof) // cut inside a frame
+    }
+}
+
+// @verif prop=C13 id=O13.2a tier=quick unwind=12 timeout=900 bound="file = two frames (cdata 1 and 2 bytes, symbolic contents/CRC/ISIZE) cut at EVERY offset c in 0..=len (symbolic c); first read_frame_into call" fns="read_frame_into,<&[u8] as Read>::read_exact"
+#[kani::proof]
+#[kani::unwind(12)]
+fn c13_read_frame_truncated_first() {
+    let mut file = [0u8; 64];
+    let (a, b) = two_frames::<1, 2>(&mut file);
+    let c: usize = kani::any();
+    kani::assume(c <= a + b);
+    let mut src: &[u8] = &file[..c];
+    let mut buf = vec![0u8; 40];
+    let r1 = kind_of(read_frame_into(&mut src, &mut buf));
+    let exp = expected_for_cut(c, a);
+    if c > 0 && c < 18 {
+        // KNOWN noodles behaviour, recorded in DESIGN.md: a cut inside the 18-byte header is
+        // reported as end of input (Ok(None)), not as an error. The property only demands
+        // "EOF or an error" for BGZF, and never a fabricated frame, so both are accepted here.
+        assert!(r1 == Ok(None) || r1 == Err(io::ErrorKind::UnexpectedEof));
+    } else {
+        assert!(r1 == exp);
+    }
+    if r1 == Ok(Some(())) {
+        assert_eq!(buf.len(), a);
+        let i: usize = kani::any();
+        kani::assume(i < a);
+        assert_eq!(buf[i], file[i]); // unchanged bytes, never fabricated
+        assert_eq!(src.len(), c - a);
+    }
+    kani::cover!(c == 20 && r1.is_err());
+    kani::cover!(c == a + b);
+    std::mem::forget(buf);
+}
+
+// @verif prop=C13 id=O13.2b tier=quick unwind=12 timeout=900 bound="same file; second read_frame_into call after a complete first frame, cut at every offset in a..=len" fns="read_frame_into"
+#[kani::proof]
+#[kani::unwind(12)]
+fn c13_read_frame_truncated_second() {
+    let mut file = [0u8; 64];
+    let (a, b) = two_frames::<1, 2>(&mut file);
+    let c: usize = kani::any();
+    kani::assume(c >= a && c <= a + b);
+    let mut src: &[u8] = &file[a..c];
+    let mut buf = vec![0u8; 40];
+    let r2 = kind_of(read_frame_into(&mut src, &mut buf));
+    let avail = c - a;
+    if avail > 0 && avail < 18 {
+        assert!(r2 == Ok(None) || r2 == Err(io::ErrorKind::UnexpectedEof));
+    } else {
+        assert!(r2 == expected_for_cut(avail, b));
+    }
+    if r2 == Ok(Some(())) {
+        assert_eq!(buf.len(), b);
+        let i: usize = kani::any();
+        kani::assume(i < b);
+        assert_eq!(buf[i], file[a + i]);
+        // and then a clean end
+        assert!(src.is_empty());
+    }
+    kani::cover!(avail == 19 && r2.is_err());
+    kani::cover!(avail == b);
+    std::mem::forget(buf);
+}
+
+// @verif prop=C12 id=O12.3a tier=quick unwind=12 timeout=900 bound="one frame with 1-byte cdata (27 bytes) + 1 trailing byte, served in EVERY partition into short reads (no Interrupted)" fns="read_frame_into,std::io::default_read_exact"
+#[kani::proof]
+#[kani::unwind(12)]
+fn c12_read_frame_into_any_chunking() {
+    let mut file = [0u8; 32];
+    let c1: [u8; 1] = kani::any();
+    let (crc1, i1): (u32, u16) = kani::any();
+    let a = {
+        let mut sink: &mut [u8] = &mut file[..];
+        write_frame(&mut sink, &c1, crc1, i1 as usize).unwrap()
+    };
+    let mut src = Chunky::new(&file[..a + 1], 0);
+    let mut buf = vec![0u8; 40];
+    let r1 = kind_of(read_frame_into(&mut src, &mut buf));
+    assert!(r1 == Ok(Some(())));
+    assert_eq!(buf.len(), a);
+    let i: usize = kani::any();
+    kani::assume(i < a);
+    assert_eq!(buf[i], file[i]);
+    assert_eq!(src.pos, a); // nothing beyond the frame was consumed
+    kani::cover!(src.calls >= 4);
+    std::mem::forget(buf);
+}
+
+// canary
+// @verif prop=C01 id=canary tier=quick expect=fail unwind=3 bound="deliberately wrong: claims BSIZE field == total size" fns="write_frame"
+#[kani::proof]
+#[kani::unwind(3)]
+fn c01_canary_bsize_is_total() {
+    let cdata: [u8; 2] = kani::any();
+    let mut out = [0u8; FRAME_MAX];
+    let mut sink: &mut [u8] = &mut out[..];
+    let total = write_frame(&mut sink, &cdata, 0, 0).unwrap();
+    assert_eq!((out[16] as usize) | ((out[17] as usize) << 8), total);
+}
+
